@@ -1244,6 +1244,12 @@ public:
         std::is_same_v<T_Sbx,
                        rlbox_get_wrapper_sandbox_t<std::remove_cv_t<T_Rhs>>>,
         "Mixing tainted data from a different sandbox type");
+      static_assert(
+        !is_func_ptr_v<T> ||
+          std::is_assignable_v<
+            T&,
+            rlbox_remove_wrapper_t<std::remove_cv_t<T_Rhs>>>,
+        "Trying to assign function pointer to field of incompatible types");
       convert_type_non_class<T_Sbx,
                              adjust_type_direction::TO_SANDBOX,
                              adjust_type_context::EXAMPLE>(
@@ -1259,6 +1265,12 @@ public:
         std::is_same_v<T_Sbx,
                        rlbox_get_wrapper_sandbox_t<std::remove_cv_t<T_Rhs>>>,
         "Mixing tainted data from a different sandbox type");
+      static_assert(
+        !is_func_ptr_v<T> ||
+          std::is_assignable_v<
+            T&,
+            rlbox_remove_wrapper_t<std::remove_cv_t<T_Rhs>>>,
+        "Trying to assign function pointer to field of incompatible types");
       convert_type_non_class<T_Sbx,
                              adjust_type_direction::NO_CHANGE,
                              adjust_type_context::EXAMPLE>(
